@@ -698,7 +698,12 @@ def d_autocorr(ctx, inputs, paths, ref, opt):
         paths = write(inputs, "c16-auto-shared-%d-%d" % (len(inputs), int(full)))
         ref = RD.RefData(inputs)
         ctx.flag("zero-separation-pairs")
-    r, fig, out = render(paths + ["-m", metric, "-x", axis])
+    # "+lines": explicit distance bins (-r) and quantile levels (-q) for the black quantile lines
+    qlines = None
+    if axis.endswith("+lines"):
+        axis = axis[:-len("+lines")]
+        qlines = ([0.0, 7.0, 19.0, 31.0], [0.1, 0.5, 0.9])
+    r, fig, out = render(paths + ["-m", metric, "-x", axis] + (["-r", ",".join(gen.fmt_num(e) for e in qlines[0]), "-q", ",".join(gen.fmt_num(q) for q in qlines[1])] if qlines else []))
     if r.kind != "ok":
         return ctx.fail("%s:%s:%s" % (metric, r.kind, r.site or "rejected"))
     lbl = lines_by_label(fig)
@@ -754,6 +759,24 @@ def d_autocorr(ctx, inputs, paths, ref, opt):
                 exp.append((dist(a, b), float("nan") if c is None else c))
         ctx.require(same_points(exp, list(zip(ls[0][0], ls[0][1])), tol=1e-6), "%s:points" % metric, input=ai.name, axis=axis, expected=exp[:4],
                     actual=list(zip(ls[0][0].tolist(), ls[0][1].tolist()))[:4])
+        # the black lines: per distance bin [e_i, e_i+1) the q-th percentile (linear interpolation) of the pair statistics
+        if qlines:
+            edges, levels = qlines
+            all_lines = list(ls[0][2].get_lines())
+            start = [k for k, l in enumerate(all_lines) if str(l.get_label()) == ai.name][0]
+            black = [l for l in all_lines[start + 1:start + 1 + len(levels)]]
+            ctx.flag("quantile-lines")
+            for q, l in zip(levels, black):
+                expl = []
+                for b in range(len(edges) - 1):
+                    sel = [(x, y) for x, y in exp if edges[b] <= x < edges[b + 1]]
+                    ys = [y for x, y in sel if not math.isnan(y)]
+                    if not sel:
+                        expl.append((float("nan"), float("nan")))
+                    else:
+                        expl.append((MD._mean([x for x, y in sel]), AG.quantile_linear(ys, q) if ys else float("nan")))
+                gotl = list(zip(np.asarray(l.get_xdata(), dtype=float).tolist(), np.asarray(l.get_ydata(), dtype=float).tolist()))
+                ctx.require(same_points(expl, gotl, tol=1e-6), "%s:quantile-line" % metric, input=ai.name, level=q, expected=expl, actual=gotl)
         # the large square at separation 0: the median over ALL pairs with zero separation (not only a series with itself)
         zero = [y for x, y in exp if x == 0]
         sq = [l for l in ls[0][2].get_lines() if l.get_marker() == "s" and len(l.get_xdata()) == 1 and float(l.get_xdata()[0]) == 0.0]
@@ -1139,7 +1162,7 @@ DIAGRAMS = {
     "droc": (d_droc, [("droc", 2.0), ("droc0", 2.0), ("droc", 1.0)]),
     "invreliability": (d_invreliability, [0.5, 0.1]),
     "autocorr": (d_autocorr, [("autocorr", "leadtime"), ("autocorr", "time"), ("autocorr", "location"), ("autocov", "leadtime"), ("autocov", "elev"), ("autocov", "lat"), ("autocorr", "lon"),
-                             ("autocorr", "lat-shared"), ("autocov", "elev-shared")]),
+                             ("autocorr", "lat-shared"), ("autocov", "elev-shared"), ("autocorr", "leadtime+lines")]),
     "fss": (d_fss, [("leadtime", 2.0, "above"), ("location", 2.0, "above"), ("location", 1.0, "below=")]),
     "meteo": (d_meteo, [None, (0.9, 0.1)]),
     "impact": (d_impact, [(-4.1, 2.0, 7.9), (-0.1, 1.0, 5.9)]),
@@ -1173,7 +1196,7 @@ def run(tier, only=None):
     st = explore.explore(harness, mode="full", params={"diagrams": diagrams}, repo_root=core.REPO, time_cap=(400 if tier == "quick" else 3000))
     return [core.Sub.from_e1("figures", st, bound="full product: %d diagram families x their option menus x {1,2,3} inputs x {partly missing, complete} dataset" % len(diagrams),
                              rule="one execution = one figure rendered by the driver; main series (by legend label) compared with reference statistics; non-trivial = more than one input",
-                             required_flags=tuple(f for d, f in (("reliability", "inset"), ("reliability", "outside-edges"), ("fss", "fss-scales"), ("impact", "impact"), ("rank", "rank-cycle"), ("autocorr", "zero-separation-pairs")) if d in diagrams), wall=time.time() - t0)]
+                             required_flags=tuple(f for d, f in (("reliability", "inset"), ("reliability", "outside-edges"), ("fss", "fss-scales"), ("impact", "impact"), ("rank", "rank-cycle"), ("autocorr", "zero-separation-pairs"), ("autocorr", "quantile-lines")) if d in diagrams), wall=time.time() - t0)]
 
 
 def replay(rec):
